@@ -26,6 +26,11 @@ CHECKS = {
         text="Exactly-once, balanced nesting, sibling order, no-op identity, locality of delete/replace/skip and chain ordering are decided on the event log and result tree of every generated document; ast_transforms visitors are compared with direct edits. Exploration; 13 mechanisms are listed known findings pinned by the repository's literal event lists.",
         note="Source order = order of loc start offsets; node identity by object id within one parse, by structural path across parses.",
         design="4/C18"),
+    "C04": dict(
+        technique="runtime monitor on graphql_blocking / process_graphql_query: every response of seeded request histories on generated schemas and resolver worlds is compared order-sensitively with an independent reference executor (R-EXEC); re-issued requests must reproduce",
+        text="Response data (key order, aliases, merged keys, fragments on abstract types, directives, leaf serialisation) and the multiset of error paths of every observed execution are decided by an executable model of the specification's execution algorithm driven by the same resolver world; history independence is checked by re-issuing earlier requests on the same Schema object.",
+        note="Trusts R-EXEC, R-COLLECT and R-COERCE (vf/ref) and the generators' validity-by-construction; schemas are code-built; errors compared by path multiset and field node.",
+        design="4/C04"),
 }
 
 PENDING_REASON = "check not built yet in this session (planned: see DESIGN.md section 4); no claim is made"
